@@ -295,7 +295,7 @@ func applyChange(content string, lines []string, change TextDocumentContentChang
 	return result.String()
 }
 
-// positionToOffset converts a Position to a byte offset
+// positionToOffset converts a Position (line, UTF-16 character) to a byte offset
 func positionToOffset(lines []string, pos Position) int {
 	// Negative coordinates are not valid LSP positions; treat them as 0.
 	if pos.Line < 0 {
@@ -309,14 +309,25 @@ func positionToOffset(lines []string, pos Position) int {
 		offset += len(lines[i]) + 1 // +1 for newline
 	}
 	if pos.Line < len(lines) {
-		lineLen := len(lines[pos.Line])
-		if pos.Character < lineLen {
-			offset += pos.Character
-		} else {
-			offset += lineLen
-		}
+		offset += utf16ToByteOffset(lines[pos.Line], pos.Character)
 	}
 	return offset
+}
+
+// utf16ToByteOffset converts an LSP character offset (UTF-16 code units) within a
+// line to a byte offset, clamping to the end of the line.
+func utf16ToByteOffset(line string, character int) int {
+	units := 0
+	for i, r := range line {
+		if units >= character {
+			return i
+		}
+		units++
+		if r >= 0x10000 {
+			units++ // encoded as a surrogate pair in UTF-16
+		}
+	}
+	return len(line)
 }
 
 // GetWordAtPosition returns the word at the given position.
